@@ -28,6 +28,13 @@ Proof.
   destruct (hexval h3); [|reflexivity]. destruct (hexval h4); reflexivity.
 Qed.
 
+Lemma hexcount_4 : forall h1 h2 h3 h4 t, (hexcount 4 (h1 :: h2 :: h3 :: h4 :: t) =? 4)%nat = hex4ok h1 h2 h3 h4.
+Proof.
+  intros. unfold hex4ok. cbn [hexcount].
+  destruct (is_hexd h1); [|reflexivity]. destruct (is_hexd h2); [|reflexivity].
+  destruct (is_hexd h3); [|reflexivity]. destruct (is_hexd h4); reflexivity.
+Qed.
+
 Lemma hexrd_no_err : forall site n r acc e, (n <= length r)%nat -> hexrd site n r acc <> JErr e.
 Proof.
   induction n as [|n IH]; intros r acc e Hn; cbn; [discriminate|].
@@ -58,8 +65,8 @@ Lemma unesc_complete : forall w sb d, SBody w sb d ->
   forall f k pend st rest, (length sb < f)%nat ->
   unesc f w (sb ++ jc_quote :: rest) k pend st = JOk (S (k + length sb), str_out st pend sb d).
 Proof.
-  intros w sb d HS. induction HS as [| c t d Hc HS IH | ch v t d Hv HS IH | ch h1 h2 h3 h4 t d Hn Hu Hh HS IH
-                                     | ch h1 h2 h3 h4 ch2 l1 l2 l3 l4 t d Hn Hu Hh Hu2 HS IH];
+  intros w sb d HS. induction HS as [| c t d Hc HS IH | ch v t d Hv HS IH | ch h1 h2 h3 h4 t d Hn Hu Hx Hh HS IH
+                                     | ch h1 h2 h3 h4 ch2 l1 l2 l3 l4 t d Hn Hu Hx Hh Hu2 Hx2 HS IH];
     intros f k pend st rest Hf; (destruct f as [|f]; [cbn in Hf; lia|]).
   - cbn [app unesc has negb rd bind]. rewrite N.eqb_refl. unfold str_out. cbn [length forallb].
     rewrite Nat.add_0_r. destruct st; cbn [has]; [|rewrite app_nil_r]; reflexivity.
@@ -95,7 +102,7 @@ Proof.
     unfold is_u in Hu. rewrite Hu.
     replace (3 <? length (h1 :: h2 :: h3 :: h4 :: t ++ jc_quote :: rest))%nat with true
       by (symmetry; apply Nat.ltb_lt; cbn; lia).
-    rewrite hexrd_4. cbn [bind advn]. unfold is_high in Hh. rewrite Hh. cbn [negb].
+    rewrite hexrd_4. cbn [bind]. rewrite hexcount_4, Hx. cbn [negb bind advn]. unfold is_high in Hh. rewrite Hh. cbn [negb].
     rewrite IH by (cbn in Hf; lia). f_equal. f_equal; [cbn; lia|].
     unfold str_out. rewrite has_app_r by apply to_utf_nonempty. cbn [forallb].
     assert (Hb : raw_ok jc_bslash = false) by reflexivity. rewrite Hb. cbn [andb app].
@@ -112,11 +119,11 @@ Proof.
     unfold is_u in Hu. rewrite Hu.
     replace (3 <? length (h1 :: h2 :: h3 :: h4 :: jc_bslash :: ch2 :: l1 :: l2 :: l3 :: l4 :: t ++ jc_quote :: rest))%nat with true
       by (symmetry; apply Nat.ltb_lt; cbn; lia).
-    rewrite hexrd_4. cbn [bind advn]. unfold is_high in Hh. rewrite Hh. cbn [negb].
+    rewrite hexrd_4. cbn [bind]. rewrite hexcount_4, Hx. cbn [negb bind advn]. unfold is_high in Hh. rewrite Hh. cbn [negb].
     replace (5 <? length (jc_bslash :: ch2 :: l1 :: l2 :: l3 :: l4 :: t ++ jc_quote :: rest))%nat with true
       by (symmetry; apply Nat.ltb_lt; cbn; lia).
     cbn [rd adv bind]. rewrite N.eqb_refl. unfold is_u in Hu2. rewrite Hu2. cbn [andb].
-    cbn [bind advn]. rewrite hexrd_4. cbn [bind advn].
+    cbn [bind advn]. rewrite hexrd_4. cbn [bind]. rewrite hexcount_4, Hx2. cbn [negb bind advn].
     rewrite IH by (cbn in Hf; lia). f_equal. f_equal; [cbn; lia|].
     unfold str_out. unfold pair_code.
     rewrite has_app_r by apply to_utf_nonempty. cbn [forallb].
@@ -182,7 +189,8 @@ Proof.
     destruct (3 <? length t2)%nat eqn:E3l; [|inversion H].
     apply Nat.ltb_lt in E3l.
     destruct t2 as [|h1 [|h2 [|h3 [|h4 t6]]]]; cbn in E3l; try lia.
-    rewrite hexrd_4 in H. cbn [bind advn] in H.
+    rewrite hexrd_4 in H. cbn [bind] in H. rewrite hexcount_4 in H.
+    destruct (hex4ok h1 h2 h3 h4) eqn:Ex; cbn [negb] in H; [|inversion H]. cbn [bind advn] in H.
     destruct (negb (N.land (hex4v h1 h2 h3 h4) 64512 =? 55296)) eqn:Eh.
     { apply IH in H. destruct H as (sb & d & rest & H1 & H2 & H3 & H4).
       exists (jc_bslash :: ch :: h1 :: h2 :: h3 :: h4 :: sb), (to_utf w (hex4v h1 h2 h3 h4) ++ d), rest. subst t6.
@@ -196,7 +204,8 @@ Proof.
     cbn [rd adv bind] in H.
     destruct (x1 =? jc_bslash) eqn:Ex1; cbn [andb] in H; [|inversion H]. apply N.eqb_eq in Ex1. subst x1.
     destruct ((x2 =? jc_cu) || (x2 =? jc_u)) eqn:Ex2; [|inversion H].
-    cbn [bind advn] in H. rewrite hexrd_4 in H. cbn [bind advn] in H.
+    cbn [bind advn] in H. rewrite hexrd_4 in H. cbn [bind] in H. rewrite hexcount_4 in H.
+    destruct (hex4ok l1 l2 l3 l4) eqn:Exl; cbn [negb] in H; [|inversion H]. cbn [bind advn] in H.
     apply IH in H. destruct H as (sb & d & rest & H1 & H2 & H3 & H4).
     exists (jc_bslash :: ch :: h1 :: h2 :: h3 :: h4 :: jc_bslash :: x2 :: l1 :: l2 :: l3 :: l4 :: sb),
            (to_utf w (pair_code (hex4v h1 h2 h3 h4) (hex4v l1 l2 l3 l4)) ++ d), rest. subst t12.
@@ -232,14 +241,16 @@ Proof.
     destruct (3 <? length t2)%nat eqn:E3l; [|discriminate].
     apply Nat.ltb_lt in E3l.
     destruct t2 as [|h1 [|h2 [|h3 [|h4 t6]]]]; cbn in E3l; try lia.
-    rewrite hexrd_4 in H. cbn [bind advn] in H.
+    rewrite hexrd_4 in H. cbn [bind] in H.
+    destruct (negb (hexcount 4 (h1 :: h2 :: h3 :: h4 :: t6) =? 4)%nat); [discriminate|]. cbn [bind advn] in H.
     destruct (negb (N.land (hex4v h1 h2 h3 h4) 64512 =? 55296)).
     { apply IH in H. cbn. split; [tauto|lia]. }
     destruct (5 <? length t6)%nat eqn:E5l; [|discriminate].
     apply Nat.ltb_lt in E5l.
     destruct t6 as [|x1 [|x2 [|l1 [|l2 [|l3 [|l4 t12]]]]]]; cbn in E5l; try lia.
     cbn [rd adv bind] in H. destruct ((x1 =? jc_bslash) && ((x2 =? jc_cu) || (x2 =? jc_u))); [|discriminate].
-    cbn [bind advn] in H. rewrite hexrd_4 in H. cbn [bind advn] in H.
+    cbn [bind advn] in H. rewrite hexrd_4 in H. cbn [bind] in H.
+    destruct (negb (hexcount 4 (l1 :: l2 :: l3 :: l4 :: t12) =? 4)%nat); [discriminate|]. cbn [bind advn] in H.
     apply IH in H. cbn. split; [tauto|lia]. }
   destruct ((c =? jc_ctl_n) || (c =? jc_ctl_t) || (c =? jc_ctl_r)); [discriminate|].
   apply IH in H. cbn. split; [tauto|lia].
@@ -366,8 +377,56 @@ Proof.
   destruct (ch =? jc_r); [discriminate|].
   unfold is_u in Hu. rewrite Hu.
   replace (3 <? length (h1 :: h2 :: h3 :: h4 :: t))%nat with true by (symmetry; apply Nat.ltb_lt; cbn; lia).
-  rewrite hexrd_4. cbn [bind advn]. unfold is_high in Hh. rewrite Hh. cbn [negb].
+  rewrite hexrd_4. cbn [bind].
+  destruct (negb (hexcount 4 (h1 :: h2 :: h3 :: h4 :: t) =? 4)%nat); [reflexivity|].
+  cbn [bind advn]. unfold is_high in Hh. rewrite Hh. cbn [negb].
   destruct (5 <? length t)%nat eqn:E5; [|reflexivity].
   apply Nat.ltb_lt in E5. destruct t as [|x1 [|x2 t']]; cbn in E5; try lia.
   cbn [rd adv bind]. cbn [low_escape_follows] in Hl. rewrite Hl. reflexivity.
+Qed.
+
+(* D93: a hexadecimal group with fewer than four hexadecimal digits ends the string reader with count 0 (failure), in the
+   first escape and in the second half of a pair *)
+Lemma unesc_short_hex_rejected : forall f w ch t k pend st,
+  esc_simple ch = None -> is_u ch = true -> (hexcount 4 t =? 4)%nat = false ->
+  unesc (S f) w (jc_bslash :: ch :: t) k pend st = JOk (O, st ++ pend).
+Proof.
+  intros f w ch t k pend st Hn Hu Hc.
+  cbn [unesc has negb rd bind adv].
+  assert (Hq : (jc_bslash =? jc_quote) = false) by reflexivity. rewrite Hq, N.eqb_refl.
+  cbn [has negb rd bind adv].
+  unfold esc_simple in Hn.
+  destruct ((ch =? jc_quote) || (ch =? jc_bslash) || (ch =? jc_slash)); [discriminate|].
+  destruct (ch =? jc_b); [discriminate|]. destruct (ch =? jc_t); [discriminate|].
+  destruct (ch =? jc_n); [discriminate|]. destruct (ch =? jc_f); [discriminate|].
+  destruct (ch =? jc_r); [discriminate|].
+  unfold is_u in Hu. rewrite Hu.
+  destruct (3 <? length t)%nat eqn:E3; [|reflexivity]. apply Nat.ltb_lt in E3.
+  destruct (hexrd 2142 4 t 0) as [code|e] eqn:Eh; [|exfalso; apply (hexrd_no_err 2142 4 t 0 e); [lia|exact Eh]].
+  cbn [bind]. rewrite Hc. reflexivity.
+Qed.
+
+Lemma unesc_short_low_rejected : forall f w ch h1 h2 h3 h4 ch2 t k pend st,
+  esc_simple ch = None -> is_u ch = true -> is_high (hex4v h1 h2 h3 h4) = true -> is_u ch2 = true ->
+  (hexcount 4 t =? 4)%nat = false ->
+  unesc (S f) w (jc_bslash :: ch :: h1 :: h2 :: h3 :: h4 :: jc_bslash :: ch2 :: t) k pend st = JOk (O, st ++ pend).
+Proof.
+  intros f w ch h1 h2 h3 h4 ch2 t k pend st Hn Hu Hh Hu2 Hc.
+  destruct (hex4ok h1 h2 h3 h4) eqn:Ex.
+  2:{ apply unesc_short_hex_rejected; try assumption. rewrite hexcount_4. exact Ex. }
+  cbn [unesc has negb rd bind adv].
+  assert (Hq : (jc_bslash =? jc_quote) = false) by reflexivity. rewrite Hq, N.eqb_refl.
+  cbn [has negb rd bind adv].
+  unfold esc_simple in Hn.
+  destruct ((ch =? jc_quote) || (ch =? jc_bslash) || (ch =? jc_slash)); [discriminate|].
+  destruct (ch =? jc_b); [discriminate|]. destruct (ch =? jc_t); [discriminate|].
+  destruct (ch =? jc_n); [discriminate|]. destruct (ch =? jc_f); [discriminate|].
+  destruct (ch =? jc_r); [discriminate|].
+  unfold is_u in Hu. rewrite Hu.
+  replace (3 <? length (h1 :: h2 :: h3 :: h4 :: jc_bslash :: ch2 :: t))%nat with true by (symmetry; apply Nat.ltb_lt; cbn; lia).
+  rewrite hexrd_4. cbn [bind]. rewrite hexcount_4, Ex. cbn [negb bind advn]. unfold is_high in Hh. rewrite Hh. cbn [negb].
+  destruct (5 <? length (jc_bslash :: ch2 :: t))%nat eqn:E5; [|reflexivity]. apply Nat.ltb_lt in E5. cbn [length] in E5.
+  cbn [rd adv bind]. rewrite N.eqb_refl. unfold is_u in Hu2. rewrite Hu2. cbn [andb bind advn].
+  destruct (hexrd 2156 4 t 0) as [lo|e] eqn:El; [|exfalso; apply (hexrd_no_err 2156 4 t 0 e); [lia|exact El]].
+  cbn [bind]. rewrite Hc. reflexivity.
 Qed.
